@@ -508,7 +508,7 @@ func runCase(c Case) (res pbt.Result) {
 	passed := func(id int) bool { return passA[id] }
 	exp := model(c, passed, false)
 	var quirkExp []expRow
-	usesMissing := len(features(c)) > 0
+	usesMissing := missingArgument(c)
 	if usesMissing {
 		quirkExp = model(c, passed, true)
 	}
@@ -546,6 +546,9 @@ func runCase(c Case) (res pbt.Result) {
 			continue
 		}
 		kind := attribute(i, func(q expRow) bool { return q.vals != nil && sameRef(got[bad], q.vals[bad]) })
+		if _, isStr := got[bad].(string); kind == "" && isStr && e.vals[bad] == nil && plusChainCol(c, bad) {
+			kind = "plus-wrapper-null-concat"
+		}
 		if kind == "" {
 			kind = "ref-value"
 		}
@@ -656,15 +659,52 @@ func classes(c Case, res *pbt.Result, exact bool) {
 	if live >= 3 {
 		res.Class("partitions>=3")
 	}
-	if len(features(c)) > 0 {
+	if missingArgument(c) {
 		res.Class("missing-argument-column")
 	}
 }
 
+// plusChainCol: the output column belongs to a '+'-only wrapper some of whose calls can be NULL.
+func plusChainCol(c Case, col string) bool {
+	for fi, f := range c.Fields {
+		if alias(fi) == col && plusChainNullable(f) {
+			return true
+		}
+	}
+	return false
+}
+
+func plusChainNullable(f Field) bool {
+	if f.Kind != "sum3" {
+		return false
+	}
+	for _, cl := range f.Calls {
+		if cl.Fn == "acc_max" || cl.Fn == "acc_min" || cl.Fn == "acc_avg" {
+			return true
+		}
+	}
+	return false
+}
+
 // features: shapes of confirmed defects.
 //
-//	missing-value: a row lacks a column that an analytic call reads as an argument.
+//	missing-value:   a row lacks a column that an analytic call reads as an argument.
+//	plus-chain-null: a wrapper that is a pure '+' chain over calls that can return NULL.
 func features(c Case) []string {
+	var out []string
+	for _, f := range c.Fields {
+		if plusChainNullable(f) {
+			out = append(out, "plus-chain-null")
+			break
+		}
+	}
+	if missingArgument(c) {
+		out = append(out, "missing-value")
+	}
+	return out
+}
+
+func missingArgument(c Case) bool {
 	used := map[string]bool{}
 	addCall := func(cl Call) {
 		used[cl.Col] = true
@@ -689,11 +729,11 @@ func features(c Case) []string {
 	for _, r := range c.Rows {
 		for col := range used {
 			if v, ok := r[col]; !ok || v.IsMissing() {
-				return []string{"missing-value"}
+				return true
 			}
 		}
 	}
-	return nil
+	return false
 }
 
 var spec = pbt.Spec[Case]{
